@@ -72,11 +72,20 @@ def stress_lexemes(maxlen):
             yield ''.join(t)
 
 
-def tok_grammar(s):
-    return f"start: {s!r} 'z' | 'z' ;\n"
+# where the lexeme stands: first in its sequence, right after a token, right after a rule call (what may follow an atom
+# without a blank being needed is decided by guards in the grammar of grammars)
+POSITIONS = {
+    'first': "start: {L} 'z' | 'z' ;\n",
+    'after-token': "start: 'z' {L} | 'z' 'z' 'z' ;\n",
+    'after-call': "start: r {L} 'z' | 'z' ;\n\nr: 'z' ;\n",
+}
 
 
-def pat_grammar(s):
+def tok_grammar(s, position='first'):
+    return POSITIONS[position].replace('{L}', repr(s))
+
+
+def pat_grammar(s, position='first', escaped_slashes=False):
     import re
     try:
         re.compile(s)
@@ -84,8 +93,14 @@ def pat_grammar(s):
         return None
     if '\n' in s:
         return None
-    body = f'/{s}/' if '/' not in s else '?' + repr(s)
-    return f"start: {body} 'z' | 'z' ;\n"
+    if escaped_slashes:
+        # the same pattern written between slashes, its own slashes escaped: the printer has to choose another form
+        if '/' not in s or s.endswith('\\') or '\\/' in s:
+            return None
+        body = '/' + s.replace('/', '\\/') + '/'
+    else:
+        body = f'/{s}/' if '/' not in s else '?' + repr(s)
+    return POSITIONS[position].replace('{L}', body)
 
 
 def ulen(s):
@@ -210,7 +225,11 @@ def shard_features(m, items):
 
 def shard_stress(m, items):
     for s in items:
-        for kind, gt in (('token', tok_grammar(s)), ('pattern', pat_grammar(s))):
+        forms = [('token', tok_grammar(s)), ('pattern', pat_grammar(s))]
+        for pos in ('after-token', 'after-call'):
+            forms += [(f'token-{pos}', tok_grammar(s, pos)), (f'pattern-{pos}', pat_grammar(s, pos)), (f'pattern-escaped-slashes-{pos}', pat_grammar(s, pos, True))]
+        forms.append(('pattern-escaped-slashes', pat_grammar(s, 'first', True)))
+        for kind, gt in forms:
             if gt is None:
                 continue
             try:
@@ -218,7 +237,7 @@ def shard_stress(m, items):
             except Exception:  # noqa
                 m.add('stress_seed_rejected')
                 continue
-            inputs = [s + ' z', s + 'z', 'z', s]
+            inputs = [s + ' z', s + 'z', 'z', s, 'z ' + s, 'z' + s, 'z ' + s + ' z', 'z z z', 'z z']
             check_model(m, gt, model, inputs, source=f'stress-{kind}')
 
 
@@ -236,6 +255,11 @@ ANTLR = [
     "grammar A;\nstart : 'a' b* EOF ;\nb : ID | INT ;\nID : [a-z]+ ;\nINT : [0-9]+ ;\nWS : [ \\t\\n]+ -> skip ;\n",
     "grammar B;\nexpr : expr '+' term | term ;\nterm : NUM | '(' expr ')' ;\nNUM : [0-9]+ ;\n",
     "grammar C;\nstart : x=ID ('=' y+=ID)? ~'q' ;\nID : 'a'..'z'+ ;\n",
+    # token rules used before they are defined, themselves alternatives or sequences, next to other elements and under labels
+    "grammar D;\nstart : term (ops+=OP rest+=term)* ;\nterm : 'a' | 'x' ;\nOP : 'plus' | 'minus' ;\n",
+    "grammar E;\nstart : KW 'a' | 'x' KW? 'a' ;\nKW : 'i' 'f' ;\n",
+    "grammar F;\nstart : SIGN? 'a' (s+=SIGN 'a')* ;\nSIGN : 'pos' | 'neg' | 'eq' 'eq' ;\n",
+    "grammar G;\nstart : item (SEP item)* ;\nitem : 'a' | 'x' | '(' start ')' ;\nSEP : 'and' | 'or' ;\n",
 ]
 
 
@@ -249,7 +273,8 @@ def shard_antlr(m, items):
         except Exception as e:  # noqa
             m.note('antlr_translation_failed', f'{type(e).__name__}: {str(e)[:80]}')
             continue
-        check_model(m, text, model, ['a', 'a b', '1+2', '(1)', 'a=b', 'ab x', 'cd x', 'q x', 'zz x', 'if x', ', x', 'abc', 'bcd', 'aef', 'x'], source='antlr')
+        check_model(m, text, model, ['a', 'a b', '1+2', '(1)', 'a=b', 'ab x', 'cd x', 'q x', 'zz x', 'if x', ', x', 'abc', 'bcd', 'aef', 'x',
+                                    'a plus x', 'a plus x minus a', 'a minus', 'if a', 'x if a', 'x a', 'pos a', 'pos a neg a', 'eq eq a', 'a eqeq a', 'a and x', 'a or x and a', '(a)', '( a and x )', 'a and'], source='antlr')
 
 
 def run(rc):
